@@ -123,16 +123,20 @@ SCHED_RULE = ("script = sequence of boundary events over N outstanding operation
 def plan_C02(tier, seed, q):
     if q:
         specs = [{"n": 2, "l": 6}, {"n": 3, "l": 4}, {"n": 2, "l": 4, "race": 6}, {"n": 1, "l": 6}, {"n": 3, "l": 5, "sample": 4}]
-        jobs = sched_jobs("C02", tier, seed, specs, shards=4) + e2e_jobs("C02", tier, seed, "mix", 200, 3000, shards=8)
+        jobs = (sched_jobs("C02", tier, seed, specs, shards=4) + e2e_jobs("C02", tier, seed, "mix", 200, 3000, shards=8)
+                + pool_jobs("C02", tier, seed, [("limits", 600), ("restart", 600)], shards=4))
     else:
         specs = [{"n": 2, "l": 7}, {"n": 3, "l": 5}, {"n": 3, "l": 6, "sample": 6}, {"n": 3, "l": 4, "race": 8}, {"n": 1, "l": 7}, {"n": 4, "l": 4, "sample": 3}]
         jobs = sched_jobs("C02", tier, seed, specs, shards=8, timeout=3000)
         jobs += sched_jobs("C02", tier, seed, [{"n": 2, "l": 4, "race": 3}, {"n": 3, "l": 3}], shards=4, kind="vt-race", timeout=3000)
         jobs += e2e_jobs("C02", tier, seed, "mix", 200, 3000, shards=8, race_t=300)
+        jobs += pool_jobs("C02", tier, seed, [("limits", 8000), ("restart", 8000)], shards=8)
     return {"level": "fault_enumeration", "exhaustive": True,
             "rule": SCHED_RULE % "" + "; oracle: every operation is signalled exactly once (Done arrivals counted on a channel with room; "
             "blocking forms return once), Error unchanged after the first signal, successful replies == f(args), and fresh pooled "
-            "calls parked on a second connection are not completed by a late signal (canary)",
+            "calls parked on a second connection are not completed by a late signal (canary); plus generated workloads on the real stack (engine e2e) "
+            "and through a Transport with server kills (engine pool) where every asynchronous call keeps a Done channel with spare room that is "
+            "inspected again at the end of the scenario",
             "jobs": jobs, "min_evaluations": 1000, "min_distinct": 500, "parallel": 14,
             "assumptions": V_ASSUME + ["the scripted peer replaces the socket below ClientCodec (socket.Messages level)"]}
 
